@@ -213,12 +213,39 @@ def envFor (net : List (Topology.Bond × Topology.Bond)) (ext : ExtEnv) (sts : L
       let ss := sinksOf net ⟨3, p, o⟩
       !ss.isEmpty && ss.all (sinkRecv ext sts) }
 
-/-- one tick of every processor (`hold p` = processor `p` spends this tick on the jump the
-    repaired assembler placed at address 0: its reference state does not move) -/
+/-- one tick of the processors `p, p+1, …` (`hold p` = processor `p` spends this tick on the jump the
+    repaired assembler placed at address 0: its reference state does not move); `all` = the states
+    of all processors before the tick, which is what the bonds show -/
+def netStepFrom (net : List (Topology.Bond × Topology.Bond)) (ext : ExtEnv) (hold : Nat → Bool) (all : List RefState) :
+    Nat → List SecCtx → List RefState → Option (List RefState)
+  | p, c :: cs, s :: ss =>
+    match (if hold p then some s else refStep c (envFor net ext all p) s), netStepFrom net ext hold all (p + 1) cs ss with
+    | some s', some rest => some (s' :: rest)
+    | _, _ => none
+  | _, _, _ => some []
+
+/-- one tick of every processor -/
 def netStep (ctxs : List SecCtx) (net : List (Topology.Bond × Topology.Bond)) (ext : ExtEnv) (hold : Nat → Bool)
     (sts : List RefState) : Option (List RefState) :=
-  (ctxs.zip sts).zipIdx.mapM fun ((c, s), p) =>
-    if hold p then some s else refStep c (envFor net ext sts p) s
+  netStepFrom net ext hold sts 0 ctxs sts
+
+def initAll : List SecCtx → Option (List RefState)
+  | [] => some []
+  | c :: cs => match refInit c, initAll cs with
+    | some s, some rest => some (s :: rest)
+    | _, _ => none
+
+/-- the whole machine for `t` ticks under a stream of external environments (no processor held) -/
+def netRun (ctxs : List SecCtx) (net : List (Topology.Bond × Topology.Bond)) (ext : Nat → ExtEnv) : Nat → Option (List RefState)
+  | 0 => initAll ctxs
+  | t + 1 => (netRun ctxs net ext t).bind (netStep ctxs net (ext t) (fun _ => false))
+
+/-- the environment processor `p` lives in when it is part of the machine: what the bonds show it,
+    tick by tick -/
+def inducedEnv (ctxs : List SecCtx) (net : List (Topology.Bond × Topology.Bond)) (ext : Nat → ExtEnv) (p : Nat) : Nat → Env :=
+  fun t => match netRun ctxs net ext t with
+    | some sts => envFor net (ext t) sts p
+    | none => envFor net (ext t) [] p
 
 /-- the external outputs after the tick: value and valid of output `r` -/
 def extOut (net : List (Topology.Bond × Topology.Bond)) (ext : ExtEnv) (sts' : List RefState) (r : Nat) : Nat × Bool :=
